@@ -13,12 +13,15 @@ package main
 //   - static upstreams: configured code + "Authenticated"; file upstreams: the file's bytes / 404.
 
 import (
+	"bufio"
 	"bytes"
 	"crypto/sha256"
 	"encoding/hex"
 	"encoding/json"
 	"fmt"
+	"io"
 	"math/rand"
+	"net"
 	"net/http"
 	"os"
 	"path/filepath"
@@ -26,6 +29,7 @@ import (
 	"strings"
 	"sync"
 	"testing"
+	"time"
 )
 
 const (
@@ -37,11 +41,17 @@ const (
 // ---------------------------------------------------------------------------------------------------------
 // scripted upstream responses
 
+type c17Interim struct {
+	Code int
+	Link []string
+}
+
 type c17Sent struct {
-	Code   int
-	Header http.Header // exactly what the handler set
-	Body   []byte
-	NoCT   bool
+	Code    int
+	Header  http.Header // exactly what the handler set
+	Body    []byte
+	NoCT    bool
+	Interim []c17Interim // informational responses sent before the final one
 }
 
 func c17Sha(b []byte) string { h := sha256.Sum256(b); return hex.EncodeToString(h[:8]) }
@@ -68,6 +78,7 @@ func c17Responder(name string, sent *sync.Map) func(w http.ResponseWriter, r *ht
 		rng := rand.New(rand.NewSource(seed))
 		rnd := func(n int) []byte { b := make([]byte, n); _, _ = rng.Read(b); return b }
 		noCT, stream := false, false
+		var interim []c17Interim
 		switch rc {
 		case 1:
 			code = 201
@@ -131,6 +142,30 @@ func c17Responder(name string, sent *sync.Map) func(w http.ResponseWriter, r *ht
 		case 13:
 			noCT = true
 			out = []byte("plain words without a declared type")
+		case 14: // 103 Early Hints, then a final status that is not 200
+			interim = []c17Interim{{103, []string{"</style.css>; rel=preload; as=style"}}}
+			code = 404
+			h["Content-Type"] = []string{"text/plain; charset=utf-8"}
+			out = []byte("hinted, then not found: " + id)
+		case 15:
+			interim = []c17Interim{{103, []string{"</a.js>; rel=preload; as=script", "</b.css>; rel=preload"}}}
+			code = 503
+			h["Retry-After"] = []string{"120"}
+			h["Content-Type"] = []string{"application/json"}
+			out = []byte(`{"error":"unavailable"}`)
+		case 16: // two interim responses
+			interim = []c17Interim{{103, []string{"</one>; rel=preload"}}, {103, []string{"</two>; rel=preload"}}}
+			code = 201
+			h["Location"] = []string{"/created/" + id}
+			h["Content-Type"] = []string{"text/plain"}
+			out = []byte("created after hints")
+		case 17:
+			interim = []c17Interim{{103, []string{"</next>; rel=preconnect"}}}
+			code = 302
+			h["Location"] = []string{"https://elsewhere.example/after-hints?x=1"}
+			h["Set-Cookie"] = []string{"hinted=1; Path=/"}
+			h["Content-Type"] = []string{"text/html"}
+			out = []byte("<a href=y>found</a>")
 		default:
 			h["Content-Type"] = []string{"text/plain; charset=utf-8"}
 			out = []byte("upstream-" + name + ":" + id)
@@ -139,13 +174,18 @@ func c17Responder(name string, sent *sync.Map) func(w http.ResponseWriter, r *ht
 			h["Content-Length"] = []string{fmt.Sprint(len(out))}
 		}
 		wh := w.Header()
+		for _, in := range interim {
+			wh["Link"] = append([]string{}, in.Link...)
+			w.WriteHeader(in.Code) // net/http sends an informational response and keeps the header map
+			delete(wh, "Link")
+		}
 		for k, v := range h {
 			wh[k] = append([]string{}, v...)
 		}
 		if noCT {
 			wh["Content-Type"] = nil
 		}
-		rec := &c17Sent{Code: code, Header: h, Body: out, NoCT: noCT}
+		rec := &c17Sent{Code: code, Header: h, Body: out, NoCT: noCT, Interim: interim}
 		if r.Method == "HEAD" || code == 204 || code == 304 {
 			rec.Body = nil
 		}
@@ -441,7 +481,7 @@ func (j *c17Judge) judgeRewriteTarget(u *c17Up, c *c17Case, observed string) []c
 }
 
 // judgeResponse: the client must see what the upstream sent.
-func (j *c17Judge) judgeResponse(c *c17Case, resp *vfResp) []c17Finding {
+func (j *c17Judge) judgeResponse(c *c17Case, resp *vfResp, interim []c17Interim) []c17Finding {
 	var f []c17Finding
 	add := func(sig, msg string, a ...interface{}) { f = append(f, c17Finding{sig, fmt.Sprintf(msg, a...)}) }
 	v, ok := j.sent.Load(c.ID)
@@ -451,7 +491,21 @@ func (j *c17Judge) judgeResponse(c *c17Case, resp *vfResp) []c17Finding {
 	}
 	s := v.(*c17Sent)
 	if resp.Code != s.Code {
-		add("c17:response-status-changed", "upstream answered %d, client received %d", s.Code, resp.Code)
+		add("c17:response-status-changed", "upstream answered %d (after %d informational responses), client received %d", s.Code, len(s.Interim), resp.Code)
+	}
+	// informational responses: "100 Continue" is hop-by-hop business of each server (not compared); everything else
+	// (103 Early Hints) is part of the upstream's answer and must be forwarded (RFC 9110 §15.2) with its fields
+	var gotInterim []c17Interim
+	for _, in := range interim {
+		if in.Code != 100 {
+			gotInterim = append(gotInterim, in)
+		}
+	}
+	if len(s.Interim) > 0 {
+		j.run.Count("responses_with_informational_prelude", 1)
+	}
+	if fmt.Sprint(gotInterim) != fmt.Sprint(s.Interim) {
+		add("c17:response-informational-changed", "upstream sent the informational responses %v before its final status, client received %v", s.Interim, gotInterim)
 	}
 	if !bytes.Equal(resp.Body, s.Body) {
 		add("c17:response-body-changed", "upstream sent %d body bytes (sha %s), client received %d (sha %s)", len(s.Body), c17Sha(s.Body), len(resp.Body), c17Sha(resp.Body))
@@ -520,8 +574,40 @@ func c17FilePathFor(u *c17Up, c *c17Case) (string, bool) {
 	return rel, true
 }
 
+// c17Wire: like the rig's wire driver (fresh connection, raw bytes, "Connection: close"), but it also returns the
+// informational (1xx) responses that precede the final one.
+func c17Wire(p *vfProxy, r *vfReq) (*vfResp, []c17Interim) {
+	addr := strings.TrimPrefix(p.Server().URL, "http://")
+	c, err := net.DialTimeout("tcp", addr, 5*time.Second)
+	if err != nil {
+		return &vfResp{Err: "dial: " + err.Error(), Header: http.Header{}}, nil
+	}
+	defer c.Close()
+	_ = c.SetDeadline(time.Now().Add(60 * time.Second))
+	rr := r.Clone()
+	rr.Headers = append(rr.Headers, [2]string{"Connection", "close"})
+	if _, err := c.Write(rr.Bytes()); err != nil {
+		return &vfResp{Err: "write: " + err.Error(), Header: http.Header{}}, nil
+	}
+	br := bufio.NewReader(c)
+	var interim []c17Interim
+	for {
+		res, err := http.ReadResponse(br, &http.Request{Method: r.Method})
+		if err != nil {
+			return &vfResp{Err: "read: " + err.Error(), Header: http.Header{}}, interim
+		}
+		if res.StatusCode >= 100 && res.StatusCode < 200 && res.StatusCode != 101 && len(interim) < 20 {
+			interim = append(interim, c17Interim{res.StatusCode, res.Header.Values("Link")})
+			continue
+		}
+		body, _ := io.ReadAll(res.Body)
+		res.Body.Close()
+		return &vfResp{Code: res.StatusCode, Header: res.Header, Body: body}, interim
+	}
+}
+
 // judgeUnder: findings when decision d is the reference outcome.
-func (j *c17Judge) judgeUnder(s *c17Set, d c17Decision, c *c17Case, req *vfReq, body []byte, resp *vfResp, hits map[string][]vfUpHit, nHits int) []c17Finding {
+func (j *c17Judge) judgeUnder(s *c17Set, d c17Decision, c *c17Case, req *vfReq, body []byte, resp *vfResp, interim []c17Interim, hits map[string][]vfUpHit, nHits int) []c17Finding {
 	var f []c17Finding
 	add := func(sig, msg string, a ...interface{}) { f = append(f, c17Finding{sig, fmt.Sprintf(msg, a...)}) }
 	hitNames := func() string {
@@ -569,7 +655,7 @@ func (j *c17Judge) judgeUnder(s *c17Set, d c17Decision, c *c17Case, req *vfReq, 
 		} else {
 			f = append(f, j.judgeRewriteTarget(d.Up, c, h[0].RequestURI)...)
 		}
-		f = append(f, j.judgeResponse(c, resp)...)
+		f = append(f, j.judgeResponse(c, resp, interim)...)
 		return f
 	}
 	if nHits > 0 {
@@ -656,7 +742,7 @@ func (j *c17Judge) judgeUnder(s *c17Set, d c17Decision, c *c17Case, req *vfReq, 
 
 func (j *c17Judge) judge(s *c17Set, c *c17Case) {
 	req, body := c17Request(c, s.Cookie)
-	resp := s.Proxy.Wire(req)
+	resp, interim := c17Wire(s.Proxy, req)
 	run := j.run
 	if resp.Err != "" {
 		if strings.Contains(resp.Err, "timeout") {
@@ -672,11 +758,11 @@ func (j *c17Judge) judge(s *c17Set, c *c17Case) {
 	if len(decisions) == 0 {
 		run.T.Fatalf("c17: generated an undecodable path %q", c.Path)
 	}
-	// several acceptable readings (proxyRawPath only): judge under the first one whose routing outcome was observed
+	// two acceptable outcomes exist only under proxyRawPath when no upstream matches (301 to path+"/" or 404)
 	var best []c17Finding
 	bestD := decisions[0]
 	for k, d := range decisions {
-		f := j.judgeUnder(s, d, c, req, body, resp, hits, nHits)
+		f := j.judgeUnder(s, d, c, req, body, resp, interim, hits, nHits)
 		routingOK := true
 		for _, x := range f {
 			if c17RoutingSigs[x.Sig] {
@@ -775,13 +861,14 @@ func (j *c17Judge) witness(s *c17Set, c *c17Case, req *vfReq, d *c17Decision, re
 func TestVerif_C17(t *testing.T) {
 	run := vfNewRun(t, "C17", "exploration")
 	run.SetRule("wire requests with a valid session over 10 upstream sets (legacy: nested / sibling+exact / static+file / scrambled / wide(14); alpha: rewrite rules, proxyRawPath, raw+rewrite, file+static+rewrite with injected headers); " +
-		"per set: exhaustive {a,b}-paths to depth 4 ± trailing slash ± one %2F separator, every base × 26 query shapes, then seeded random (base + 0–3 segments over the alphabet a b %2F %2f %2E %20 + ; : @ %C3%A9 ~ ! $ & ' ( ) * , = and escaped reserved characters) × query × 7 methods × bodies (none/form/text/binary, 0 B–1 MiB, Content-Length or chunked) × 12 header classes × 14 scripted upstream responses. " +
+		"per set: exhaustive {a,b}-paths to depth 4 ± trailing slash ± one %2F separator, every base × 26 query shapes, then seeded random (base + 0–3 segments over the alphabet a b %2F %2f %2E %20 + ; : @ %C3%A9 ~ ! $ & ' ( ) * , = and escaped reserved characters) × query × 7 methods × bodies (none/form/text/binary, 0 B–1 MiB, Content-Length or chunked) × 13 header classes (incl. Expect: 100-continue uploads) × 18 scripted upstream responses (4 of them preceded by 103 Early Hints). " +
 		"cell = (set, reference outcome kind, path class, query class, method, body class, header class, response class); non-trivial = anything but a plain GET of a plain path")
 	run.Assume("Go regexp engine for the rule semantics (regexp.ReplaceAllString is what the rule documentation promises)",
 		"fake upstreams and the raw client parse HTTP with net/http: header-name case and the order of different header names are not observable",
 		"accepted, listed differences: hop-by-hop headers removed; X-Forwarded-For appended; repeated request header lines comma-joined; Host per passHostHeader; Accept-Encoding: gzip may be added when the client sent none; Content-Type may be sniffed when the upstream sent none; Gap-Auth added to responses; Date/Content-Length/Transfer-Encoding/Connection framing",
 		"rewrite upstreams: re-ordering of parameters, re-escaping of unreserved octets and of the mark characters !*'() are accepted",
-		"proxyRawPath: the docs do not say which form of the path is matched; when the escaped and decoded readings differ, either outcome is accepted",
+		"proxyRawPath: prefixes and exact paths are matched on the escaped path only, rewrite patterns on the decoded path they rewrite; only when no upstream matches and the slash-appended courtesy test differs between the two forms are both a 301 to path+'/' and a 404 accepted",
+		"informational responses: 100 Continue is per-hop and not compared; every other 1xx (103 Early Hints) must be forwarded with its Link fields before the final response",
 		"paths whose *encoded* form is not canonical are outside the property's quantifier: only 'answered by a 301 and not delivered' is checked for them")
 	w := vfNewWorld(t)
 	defer w.Close()
